@@ -44,7 +44,15 @@ def build_map(node, fields, via="add_variable"):
     pmap.clear()
     for dt, ln in fields:
         full = R.width(dt)
-        pmap.add_variable(gen.TYPE_INDEX_BASE + dt, 0, None if ln == full and dt != R.BOOLEAN else ln)
+        length = None if ln == full and dt != R.BOOLEAN else ln
+        if via == "by-name":
+            # the same objects addressed by name: a record member ("Typed record" / "M_<TYPE>") or a top-level variable
+            if (dt + ln) % 2:
+                pmap.add_variable("Typed record", "M_" + R.NAMES[dt], length)
+            else:
+                pmap.add_variable("V_" + R.NAMES[dt], 0, length)
+        else:
+            pmap.add_variable(gen.TYPE_INDEX_BASE + dt, 0, length)
     return pmap
 
 
@@ -110,7 +118,7 @@ def run(ctx, desc):
     for _ in range(desc["layouts"]):
         layouts.append(gen.random_layout(rng))
     for li, fields in enumerate(layouts):
-        run_layout(ctx, rng, node, fields, desc["maxbits"], via="read" if li % 3 == 2 else "add_variable")
+        run_layout(ctx, rng, node, fields, desc["maxbits"], via=("add_variable", "by-name", "read")[li % 3])
 
 
 def run_layout(ctx, rng, node, fields, maxbits, only=None, via="add_variable"):
